@@ -465,7 +465,7 @@ func c06RunItems(c *core.Ctx, items []c06Item, web bool) {
 }
 
 func init() {
-	sizes := map[core.Tier]int{core.Quick: 12000, core.Thorough: 400000}
+	sizes := map[core.Tier]int{core.Quick: 12000, core.Thorough: 2000000}
 	core.Register(&core.Prop{
 		ID:    "C06",
 		Level: "exploration",
